@@ -131,6 +131,11 @@ def dry_run(root, do_step, step, config_path=None, pool_seed=0, pre=None, copy_r
         shutil.rmtree(copy, ignore_errors=True)
 
 
+def _cross_dir(label):
+    p = label.split(":", 1)[1].split("->")
+    return len(p) == 2 and os.path.dirname(p[0]) != os.path.dirname(p[1])
+
+
 IO_ERROR_OPS = ("open-", "write", "twrite", "tofile", "close", "rename", "replace", "unlink", "mkdir", "move", "copy")
 
 
@@ -150,7 +155,7 @@ def place_fault(rng, events, eligible, kinds=("kill", "io_error", "torn")):
     k = occ[0] if u < 0.2 else occ[-1] if u < 0.4 else rng.choice(occ)
     lab = events[k]
     op = lab.split(":", 1)[0]
-    ks = [x for x in kinds if x not in ("torn", "corrupt") or op in ("write", "tofile")]
+    ks = [x for x in kinds if x not in ("torn", "corrupt") or op in ("write", "tofile") or (x == "torn" and op == "move" and _cross_dir(lab))]
     if op.startswith("enter") or op.startswith("exit"):
         ks = [x for x in ks if x == "kill"] or ["kill"]
     kind = rng.choice(ks) if ks else "kill"      # a write-only kind on a non-write event degrades to a kill there
@@ -159,4 +164,6 @@ def place_fault(rng, events, eligible, kinds=("kill", "io_error", "torn")):
         f["tear"] = rng.choice([0.01, 0.25, 0.5, 0.75, 0.99, round(rng.random(), 3)])
     if kind == "io_error":
         f["errno"] = rng.choice([28, 5])  # ENOSPC, EIO
+        if rng.random() < 0.3:
+            f["persistent"] = True        # the disk stays full / the mount stays dead for the rest of the operation
     return f
